@@ -247,7 +247,20 @@ impl Future for ConnectionDriver {
             conn.terminate(e, &self.0.shared);
             return Poll::Ready(Ok(()));
         }
-        let mut keep_going = conn.drive_transmit(cx)?;
+        let mut keep_going = match conn.drive_transmit(cx) {
+            Ok(keep_going) => keep_going,
+            Err(e) => {
+                // The connection cannot make progress any more: fail everything that waits on it
+                conn.terminate(
+                    ConnectionError::TransportError(TransportError::new(
+                        TransportErrorCode::INTERNAL_ERROR,
+                        format!("I/O error: {e}"),
+                    )),
+                    &self.0.shared,
+                );
+                return Poll::Ready(Err(e));
+            }
+        };
         // If a timer expires, there might be more to transmit. When we transmit something, we
         // might need to reset a timer. Hence, we must loop until neither happens.
         keep_going |= conn.drive_timer(cx);
